@@ -1,6 +1,7 @@
 """C10 -- str-like methods agree with Python's str on the base text."""
 from hypothesis import strategies as st
 from vlib.core import Sub, Outcome
+from vlib import sgrterm
 from vlib import gen
 from vlib.interp import run_bounded, StepLimit, describe
 from ansi_string import AnsiString, AnsiStr
@@ -8,15 +9,20 @@ from ansi_string import AnsiString, AnsiStr
 QUICK_SCALE = 1.0
 RULE = ('base texts (ASCII + non-ASCII incl. characters whose case mapping changes length, empty, whitespace-only) wrapped '
         'in a partly formatted AnsiString and AnsiStr x argument tuples per method: substrings drawn from the text, '
-        'overlapping/multi-char/empty patterns, start/end in {None} U [-len-2, len+2], counts in {-1,0,1,2,5}, widths in '
+        'overlapping/multi-char/empty patterns, start/end in {None} U [-len-2, len+2], counts in {-7,-2,-1,0,1,2,5}, widths in '
         '[0,len+6], fill characters, tuple suffixes, chars sets. Non-trivial = the argument interacts with the text '
-        '(pattern occurs, a bound lies inside the text, width > len, text changes); distinct by (method, text, args).')
+        '(pattern occurs, a bound lies inside the text, width > len, text changes); distinct by (method, text, args). One case in six uses a '
+        'base text that itself contains escape sequences (stored with assign_str; patterns up to 6 characters drawn from it), one in '
+        'twelve a text of title/upper/lower-case words; replacement strings may contain SGR sequences.')
 ASSUMPTIONS = ['documented deviations are applied to the expected side: center = format(t, fill^width); rpartition without '
                'match = (t, "", ""); expandtabs(n) = replace(tab, n spaces); zfill(w) = rjust(w, "0"); default strip set '
                '" \\t\\n\\r\\v\\f"; empty separator for split/rsplit/partition/rpartition is outside the claim',
-               'each call runs under a deterministic line-event bound so that a non-terminating call is reported, not hung']
+               'each call runs under a deterministic line-event bound so that a non-terminating call is reported, not hung',
+               'a str replacement is parsed like a constructor argument (documented): the expected inserted text is the replacement '
+               'with its SGR sequences removed; a str operand of `in` containing ESC may be parsed or not (both answers accepted)']
 
-ALPHA = list('abAB \t\n-:+01x') * 2 + list('\u00e9\u00df\u0130\u01c6\u4e2d') + ['\r', '\v', '\f', '\x1c', '\x85', '\u2028', '\u01c5', '\ufb01', '\r\n', '\r\n', '\n\r', '\u03a3', '\u03a3', '\u03c3', '\u03c2', '\u039f', '\u0149', '\u0130']
+ALPHA = list('abAB \t\n-:+01x') * 2 + list('\u00e9\u00df\u0130\u01c6\u4e2d') + ['\r', '\v', '\f', '\x1c', '\x85', '\u2028', '\u01c5', '\ufb01', '\r\n', '\r\n', '\n\r', '\u03a3', '\u03a3', '\u03c3', '\u03c2', '\u039f', '\u0149', '\u0130', '\u01c4', '\u01c7', '\u01ca', '\u01f1', '\u01c4b', '\u01f1a']
+TITLE_WORDS = ['Ab', 'A', 'Bab', '\u01c4emal', '\u01c5a', '\u01c7b', '\u01f1a', '\u01caa', 'AB', 'ab', '\u00dfa', 'A\u00df', '\ufb01n', '\u0130a', '\u03a3\u03c2', 'B1a', '1a', '\u0149a']
 QUERIES0 = ['isalnum', 'isalpha', 'isascii', 'isdecimal', 'isdigit', 'isidentifier', 'islower', 'isnumeric', 'isprintable',
             'isspace', 'istitle', 'isupper']
 CASES = ['capitalize', 'casefold', 'lower', 'upper', 'swapcase', 'title']
@@ -24,11 +30,23 @@ WS = ' \t\n\r\v\f'
 LIMIT = 400000
 
 
-def wrap(t, cls):
-    v = AnsiString(t)
+ESC_TOKENS = ['\x1b[1m', '\x1b[31m', '\x1b[m', '\x1b[2K', '\x1b', '[', 'm', '\x1b[0;4m']
+
+
+def wrap(t, cls, raw=False):
+    if raw:
+        # the text is stored as it is (assign_str does not parse): escape sequences are ordinary characters of t
+        v = AnsiString('q' * len(t))
+    else:
+        v = AnsiString(t)
     if len(t) >= 2:
         v.apply_formatting('bold', 1, len(t) - 1 or None)
     v.apply_formatting('red', 0, max(1, len(t) // 2))
+    if raw:
+        v.assign_str(t)
+        if v.base_str != t:
+            from vlib.core import HarnessError
+            raise HarnessError('assign_str did not store the text')
     return AnsiStr(v) if cls == 's' else v
 
 
@@ -57,7 +75,8 @@ def expected(m, t, a):
     if m in ('removeprefix', 'removesuffix'):
         return getattr(t, m)(a[0])
     if m == 'replace':
-        return t.replace(a[0], a[1], a[2])
+        # a str replacement is parsed like a constructor argument (documented): its text is what gets inserted
+        return t.replace(a[0], sgrterm.strip_sgr(a[1]), a[2])
     if m in ('split', 'rsplit'):
         return getattr(t, m)(a[0], a[1])
     if m == 'splitlines':
@@ -137,8 +156,19 @@ def eval_case(case):
         exp = ('ok', expected(m, t, a))
     except Exception as e:
         exp = ('exc', type(e).__name__)
+    raw = bool(case.get('raw'))
+    if not raw and '\x1b' in t:
+        from vlib.core import HarnessError
+        raise HarnessError('malformed case')
+    alt = None
+    if m == 'in' and exp[0] == 'ok' and '\x1b' in a[0]:
+        # a str operand of `in` is parsed first (documented for str operands): both readings are accepted
+        alt = ('ok', sgrterm.strip_sgr(a[0]) in t)
+    if m == 'replace' and '\x1b' in a[1] and AnsiString(a[1]).base_str != sgrterm.strip_sgr(a[1]):
+        o.skipped = 'replacement-text-ambiguous'
+        return o
     for cls in ('S', 's'):
-        v = wrap(t, cls)
+        v = wrap(t, cls, raw)
         try:
             if case.get('large'):
                 r = actual(m, v, a, nk)   # sizes in the thousands: not traced (the line-event bound is C09's business)
@@ -156,7 +186,7 @@ def eval_case(case):
             if lib_frame(e)[0] != 'lib':
                 raise
             got = ('exc', type(e).__name__)
-        if got != exp:
+        if got != exp and got != alt:
             o.fail('%s-%s' % (m, 'exc' if got[0] != 'ok' or exp[0] != 'ok' else 'differs'),
                    '%s(%r).%s%r -> %r; str gives %r' % ('AnsiString' if cls == 'S' else 'AnsiStr', t, m, tuple(a), got, exp))
     # non-trivial
@@ -181,6 +211,8 @@ def eval_case(case):
             nt = len(t) > 0
     o.nontrivial = nt
     o.label(m)
+    if raw:
+        o.label('raw-text')
     return o
 
 
@@ -188,8 +220,18 @@ def eval_case(case):
 def strat(draw):
     n = draw(st.integers(0, 12))
     t = ''.join(draw(st.lists(st.sampled_from(ALPHA), min_size=n, max_size=n)))
-    if draw(st.integers(0, 9)) == 0:
+    mode = draw(st.integers(0, 11))
+    raw = False
+    if mode == 0:
         t = ''.join(draw(st.lists(st.sampled_from(list(WS)), max_size=4)))
+    elif mode == 1:
+        # words in title / upper / lower case (istitle(), isupper(), islower() hold for the whole text)
+        ws = draw(st.lists(st.sampled_from(TITLE_WORDS), min_size=1, max_size=4))
+        t = draw(st.sampled_from([' ', '-', "'", '  '])).join(ws)
+    elif mode in (2, 3):
+        # base text that contains escape sequences (stored with assign_str)
+        raw = True
+        t = ''.join(draw(st.lists(st.sampled_from(ALPHA[:28] + ESC_TOKENS * 3), min_size=n, max_size=n)))
     L = len(t)
 
     def sub(maxlen=3, allow_empty=True):
@@ -229,10 +271,11 @@ def strat(draw):
     elif m == 'removesuffix':
         a = [t[L - draw(st.integers(0, min(L, 3))):] if draw(st.booleans()) else sub()]
     elif m == 'replace':
-        a = [sub(2), draw(st.sampled_from(['', 'x', 'ab', 'é', t[:1], sub(2)])), draw(st.sampled_from([-1, -1, 0, 1, 2, 5]))]
+        a = [sub(2) if not raw else sub(6), draw(st.sampled_from(['', 'x', 'ab', 'é', t[:1], sub(2), '\x1b[1mb', 'a\x1b[31m', '\x1b[m', '\x1b[2Kx'])),
+             draw(st.sampled_from([-1, -1, 0, 1, 2, 5, -2, -7]))]
         nk = draw(st.sampled_from(['str', 'str', 'S', 's']))
     elif m in ('split', 'rsplit'):
-        a = [draw(st.one_of(st.none(), st.just(sub(2, False)))), draw(st.sampled_from([-1, -1, 0, 1, 2, 5]))]
+        a = [draw(st.one_of(st.none(), st.just(sub(2 if not raw else 6, False)))), draw(st.sampled_from([-1, -1, 0, 1, 2, 5, -2, -7]))]
     elif m == 'splitlines':
         a = [draw(st.booleans())]
     elif m in ('partition', 'rpartition'):
@@ -243,7 +286,10 @@ def strat(draw):
         a = [draw(st.integers(0, L + 6))]
     elif m == 'expandtabs':
         a = [draw(st.integers(0, 9))]
-    return {'t': t, 'm': m, 'a': a, 'nk': nk}
+    c = {'t': t, 'm': m, 'a': a, 'nk': nk}
+    if raw:
+        c['raw'] = True
+    return c
 
 
 def enum_large(tier):
